@@ -1,6 +1,7 @@
 from __future__ import annotations
 
 import abc
+import codecs
 import re
 from datetime import timezone, timedelta
 from functools import lru_cache
@@ -86,7 +87,11 @@ class Variables(abc.ABC):
         if value is DEFAULT or value is None:
             self.values[name] = default
         else:
-            self.values[name] = type_(value)
+            value = type_(value)
+            validate = VALIDATORS.get(name)
+            if validate:
+                validate(value)
+            self.values[name] = value
 
     def get(self, name: str) -> Any:
         name = name.lower()
@@ -140,3 +145,22 @@ def parse_timezone(tz: str) -> timezone:
     if match.group("sign") == "-":
         offset = offset * -1
     return timezone(offset)
+
+
+def _validate_character_set(value: str) -> None:
+    try:
+        codecs.lookup(CharacterSet[value].codec)
+    except (KeyError, LookupError) as e:
+        raise MysqlError(
+            f"Unknown character set: {value}", code=ErrorCode.WRONG_VALUE_FOR_VAR
+        ) from e
+
+
+# Variables the server itself depends on are checked when they are assigned,
+# so a bad value is refused instead of breaking every later statement.
+VALIDATORS: dict[str, Callable[[Any], Any]] = {
+    "character_set_client": _validate_character_set,
+    "character_set_connection": _validate_character_set,
+    "character_set_results": _validate_character_set,
+    "time_zone": parse_timezone,
+}
